@@ -48,6 +48,7 @@ def _setup(ctx):
     st.s = z3.Function("rec_start", z3.IntSort(), z3.IntSort())
     st.e = z3.Function("rec_end", z3.IntSort(), z3.IntSort())
     st.data = SArr.fresh(st.N, lambda p: st.D(I(p)))
+    st.data.dtype = "uint8"            # the chunk is a uint8 buffer: arithmetic among uint8 values wraps modulo 256
     st.selfv = SRec(_X(), _data=st.data, _new_lines=SArr.fresh(st.n, lambda i: st.s(I(i))), _ends=SArr.fresh(st.n, lambda i: st.e(I(i))),
                     _is_contigous=True, _header_data=Opaque("header"))
     st.args = []
